@@ -108,3 +108,40 @@ Qed.
 
 Lemma thm_no_panic s : reach s -> spec_no_panic s.
 Proof. intros Hr. apply (i_panic s (reach_inv s Hr)). Qed.
+
+Lemma settled_done s r : Inv s -> settledb s r = true ->
+  exists R, roots s r = Some R /\ r_apc R = ARet /\
+            forall m M, mons s m = Some M -> m_root M = r -> m_phase M = PDone.
+Proof.
+  intros I H. unfold settledb in H. destruct (roots s r) as [R|] eqn:HR; [|discriminate].
+  destruct (r_apc R) eqn:A; try discriminate. exists R. repeat split; auto.
+  intros m M Hm Hroot. rewrite forallb_forall in H.
+  assert (Hin : In m (mons_of s r)).
+  { unfold mons_of. apply filter_In. split; [eapply in_ids; eauto|]. rewrite Hm. apply Nat.eqb_eq. exact Hroot. }
+  specialize (H m Hin). unfold doneb in H. rewrite Hm in H. destruct (m_phase M); try discriminate. reflexivity.
+Qed.
+
+Lemma thm_exactly_once s : reach s -> spec_exactly_once s.
+Proof.
+  intros Hr r R HR Hs. pose proof (reach_inv s Hr) as I.
+  destruct (settled_done s r I Hs) as (R' & HR' & Hapc & Hd). rewrite HR in HR'. injection HR' as <-.
+  assert (Z1 : count_unf s r = 0).
+  { apply wsum_none. intros m M Hm. unfold w_unf. destruct (Nat.eqb_spec (m_root M) r); [|reflexivity].
+    rewrite (Hd m M Hm e). reflexivity. }
+  assert (Z2 : wsum (w_fz r) s = 0).
+  { apply wsum_none. intros m M Hm. unfold w_fz. destruct (Nat.eqb_spec (m_root M) r); [|reflexivity].
+    rewrite (Hd m M Hm e). reflexivity. }
+  assert (Z3 : forall k, wsum (w_pend k r) s = 0).
+  { intros k. apply wsum_none. intros m M Hm. unfold w_pend. destruct (Nat.eqb_spec (m_root M) r); [|reflexivity].
+    rewrite (Hd m M Hm e). reflexivity. }
+  pose proof (i_count s I r R HR) as C. pose proof (i_cross s I r R HR) as X. pose proof (i_post s I r R HR) as P.
+  rewrite Z1 in C. rewrite C in X. simpl in X. rewrite Z2 in P.
+  assert (P1 : r_posted R = 1) by lia.
+  pose proof (i_handler s I r R HR) as Hh. rewrite Z3, P1 in Hh. simpl in Hh.
+  split; [exact P1|]. split; [lia|].
+  intros Hw Ht. destruct (i_rootmon s I r R HR) as (M & Hm & _ & _ & Hsk & _).
+  destruct (i_waiter s I r R M HR Hm) as [_ EQ].
+  assert (Sk : m_skipped M = false) by (destruct (m_skipped M); [specialize (Hsk eq_refl); congruence | reflexivity]).
+  specialize (EQ Sk). rewrite Z3, P1 in EQ. simpl in EQ. unfold regW in EQ. rewrite Hapc, Hw in EQ.
+  destruct (r_released R); [reflexivity | simpl in EQ; lia].
+Qed.
